@@ -488,9 +488,33 @@ func c11datatypeWord(c *Ctx, r *Result) {
 			if !strings.HasPrefix(name, "core.encodeDatatype") {
 				continue
 			}
+			// the encoder itself, or the assembling helper it hands the class to (a DatatypeClass-typed argument), packs the word
+			packers := map[string]bool{name: true}
+			var follow func(f *ssa.Function, depth int)
+			follow = func(f *ssa.Function, depth int) {
+				if f == nil || depth > 2 {
+					return
+				}
+				for _, s2 := range callsIn(f) {
+					g := s2.Common().StaticCallee()
+					if g == nil || g.Blocks == nil || shortPkg(fnPkgPath(g)) != "core" {
+						continue
+					}
+					for _, a := range s2.Common().Args {
+						if isDatatypeClassValue(a) && !packers[c.Name(g)] {
+							packers[c.Name(g)] = true
+							follow(g, depth+1)
+						}
+					}
+				}
+			}
+			follow(site.Common().StaticCallee(), 0)
 			has := false
 			for _, o := range r.Obls {
-				if o.Rule == "C11.2" && strings.HasPrefix(o.Construct, name+"#header-word-packing") {
+				if o.Rule != "C11.2" {
+					continue
+				}
+				if i := strings.Index(o.Construct, "#header-word-packing"); i >= 0 && packers[o.Construct[:i]] {
 					has = true
 				}
 			}
